@@ -30,6 +30,8 @@ let oracle_c15 (line : string) : string =
             | [1; l; cc; sh; _] -> c15_cursor_checkb t true (zi l) (zi cc) (zi sh)
             | _ -> false in
           if not ok then bad := Some (Printf.sprintf "record %d: cursor is not where cursor_spec puts it" k)
+          else if not (c15_links_kept_checkb (parse_tree (field r "U")) t) then
+            bad := Some (Printf.sprintf "record %d: the flush changed a focus link or a focused flag" k)
         end else if r.kind = "TF" then begin
           let t = parse_tree (field r "T") in
           match !targets with
